@@ -5,7 +5,8 @@
    with the reserved prefix — checked by computation for every IntEnum subclass of the package
    (C17_package_enums_ok).  [reachable d st]: st is the state of the class after any list of operations the
    property quantifies over ([allowed]): integer conversions strict or lenient, [] with ints, strict name
-   conversions, name lookups outside the hidden namespace, list / len / reversed, and lenient conversion of a name
+   conversions, name lookups outside the hidden namespace, list / len / reversed (also an iteration left open while
+   unknown values are first encountered), and lenient conversion of a name
    only when the name resolves among the defined members. *)
 From Coq Require Import ZArith List Bool String.
 From FEC Require Import Generated.DynEnumTables Models.DynEnumM Proofs.DynEnumP Proofs.DynEnumMaskP Proofs.DynEnumTablesP.
@@ -145,14 +146,15 @@ Print Assumptions C17_reversed_legacy_refuted.
    the statements above say something about it; the mask hypotheses are met by a helper with an offset. *)
 Definition fb : list member := [("UNKNOWN"%string, 0); ("L1"%string, 1); ("L2"%string, 2); ("L5"%string, 5); ("L6"%string, 6)].
 Definition h1 : list op := [OpCall 7 false; OpCall (-3) false; OpIter; OpCall 7 true; OpCallName "l1" true;
-                            OpCallName (hidden_name 7) true; OpCallName "UNKNOWN" false; OpGetInt 2; OpLen; OpReversed].
+                            OpCallName (hidden_name 7) true; OpCallName "UNKNOWN" false; OpGetInt 2; OpLen; OpReversed;
+                            OpIterDuring [7; 9]; OpReversedDuring [11]].
 Example C17_nonvacuous :
   table_of "fusion_engine_client.messages.signal_defs:FrequencyBand" = Some fb /\
   table_ok fb = true /\ Forall (fun o => allowed fb o = true) h1 /\
-  extra (fst (run (init fb) h1)) = [(hidden_name 7, 7); (hidden_name (-3), -3)] /\
+  extra (fst (run (init fb) h1)) = [(hidden_name 7, 7); (hidden_name (-3), -3); (hidden_name 9, 9); (hidden_name 11, 11)] /\
   snd (run (init fb) h1) =
     [OMember (hidden_name 7, 7); OMember (hidden_name (-3), -3); OList fb; OErr ValueError; OMember ("L1"%string, 1);
-     OErr KeyError; OMember ("UNKNOWN"%string, 0); OMember ("L2"%string, 2); OLen 5; OList (rev fb)] /\
+     OErr KeyError; OMember ("UNKNOWN"%string, 0); OMember ("L2"%string, 2); OLen 5; OList (rev fb); OList fb; OList (rev fb)] /\
   ~ In 7 (map snd fb) /\ In 5 (map snd fb) /\ hidden_ns "l1" = false /\ hidden_ns (lower (hidden_name 7)) = true /\
   (let m := mkMask 1 [("A"%string, 1); ("B"%string, 2); ("C"%string, 5)] [("A"%string, 1); ("B"%string, 2); ("C"%string, 16)] in
    rt_pre m [IVal 5; IName "a"; IVal 9] = true /\
